@@ -1247,9 +1247,14 @@ def rule_get_variable_bounds(ctx: Ctx, rule: str = "bounds-order") -> None:
     # termlist-level: the objective row is built with constant 0 and optimised over self
     key = PTL + "optimize"
     fi = prog.func(key)
-    for p in lp_paths(prog, key, 0)[:2]:
+    seen_shapes = set()
+    for p in lp_paths(prog, key, 0):
         lp = p.calls("linprog")[0]
         a_ub, b_ub = kw_of(lp, "A_ub"), kw_of(lp, "b_ub")
+        shape = (show(a_ub, 6), show(b_ub, 6), tuple(show(e["args"][0], 4) for e in p.calls("termlist_to_polytope") if e["args"]))
+        if shape in seen_shapes:
+            continue
+        seen_shapes.add(shape)
         t2p = p.calls("termlist_to_polytope")
         construct = "PolyhedralTermList.optimize: the LP is over self's matrix and bounds"
         okc = len(t2p) == 1 and t2p[0]["args"] and t2p[0]["args"][0] == ("param", "self") and a_ub == ("item", t2p[0]["result"], 1) and b_ub == ("item", t2p[0]["result"], 2)
@@ -1376,3 +1381,84 @@ def rule_kaykobad_guards(ctx: Ctx, rule: str = "kaykobad-guards") -> None:
         construct2 = "_get_kaykobad_context: the polarity factor multiplies the context row's sign, compared for equality with the term's sign"
         okp = "transform_coeff" in t and isinstance(c.ops[0], ast.NotEq)
         (ctx.ok(rule, key, construct2, nontrivial=False) if okp else ctx.cannot_decide(rule, key, construct2, "unrecognised sign comparison %s" % t))
+
+
+# ------------------------------------------------------------ small wiring rules
+def rule_is_empty_wiring(ctx: Ctx, rule: str = "is-empty-wiring") -> None:
+    """C11/C03/C17: is_empty() asks is_polytope_empty about the list's own matrix and bounds."""
+    prog = ctx.prog
+    key = PTL + "is_empty"
+    fi = prog.func(key)
+    ps = [p for p in Sim(prog, fi).paths() if p.terminal == "return"]
+    construct = "is_empty: is_polytope_empty(A(self), b(self))"
+    okc = len(ps) == 1
+    why = "unexpected shape"
+    if okc:
+        v = ps[0].value
+        t2p = ps[0].calls("termlist_to_polytope")
+        okc = v[0] == "call" and v[1].endswith("is_polytope_empty") and len(t2p) == 1 and t2p[0]["args"] and t2p[0]["args"][0] == ("param", "self")
+        if okc:
+            args = list(v[2]) + [x for _k, x in v[3]]
+            res = t2p[0]["result"]
+            okc = args == [("item", res, 1), ("item", res, 2)]
+            why = "asks about %s" % [show(a, 2) for a in args]
+    (ctx.ok(rule, key, construct) if okc else ctx.violation(rule, key, construct, why, where=fi.where))
+
+
+def rule_rename_variables_chain(ctx: Ctx, rule: str = "rename-sequence") -> None:
+    """C16: rename_variables applies the mappings one after the other, each to the result of the previous one,
+    source = mapping[0], target = mapping[1], starting from a copy."""
+    prog = ctx.prog
+    key = "PolyhedralIoContract.rename_variables"
+    fi = prog.func(key)
+    me, mp = fi.params[0], fi.params[1]
+    ps = [p for p in Sim(prog, fi, loop_iters=(0, 1, 2)).paths() if p.terminal == "return"]
+    n = 0
+    for p in ps:
+        n += 1
+        calls = p.calls("rename_variable")
+        k = len(calls)
+        construct = "rename_variables: %d mapping(s) applied in order, each to the previous result" % k
+        okc = True
+        why = ""
+        prev = None
+        # a mapping may be skipped only by looking at the mapping itself or at the current (partially renamed)
+        # contract - never at the original contract, whose interface is stale after the first renaming
+        for e in p.events:
+            if e["kind"] == "branch" and e["loop"] > 0 and mentions(e["test"], lambda x: x == ("param", me)):
+                okc, why = False, "a mapping is skipped / selected by a test on the ORIGINAL contract (%s): names introduced by earlier mappings are not seen" % show(e["test"], 4)
+        last_idx = -1
+        for i, c in enumerate(calls):
+            recv = c["recv"]
+            if i == 0:
+                if not (recv == ("param", me) or (recv[0] == "mcall" and recv[1] == "copy" and recv[2] == ("param", me))):
+                    okc, why = False, "the first renaming is applied to %s" % show(recv, 3)
+            elif recv != prev:
+                okc, why = False, "renaming %d is applied to %s, not to the result of renaming %d" % (i + 1, show(recv, 3), i)
+            args = list(c["args"]) + [x for _k, x in c["kws"]]
+            got = []
+            idxs = set()
+            for a in args:
+                if a[0] == "new" and a[1] == "Var" and len(a[2]) == 1 and a[2][0][0] == "sub" and a[2][0][1][0] == "iter" and a[2][0][1][1] == ("param", mp):
+                    got.append(a[2][0][2])
+                    idxs.add(a[2][0][1][3])
+                else:
+                    got.append(None)
+            if got != [const(0), const(1)] or len(idxs) != 1:
+                okc, why = False, "renaming %d uses (source, target) = %s" % (i + 1, [show(a, 3) for a in args])
+            else:
+                idx = idxs.pop()
+                if idx <= last_idx:
+                    okc, why = False, "mappings are not applied in list order"
+                last_idx = idx
+            prev = c["result"]
+        if okc:
+            v = p.value
+            if k == 0:
+                okc = v == ("param", me) or (v[0] == "mcall" and v[1] == "copy" and v[2] == ("param", me))
+                why = "with no mapping the result is %s" % show(v, 3)
+            else:
+                okc = v == prev
+                why = "the result is %s, not the last renaming" % show(v, 3)
+        (ctx.ok(rule, key, construct) if okc else ctx.violation(rule, key, construct, why, where=fi.where))
+    ctx.floor("rename_variables paths", n, 3)
